@@ -18,7 +18,8 @@ import copy
 import numpy as np
 
 from .. import zoo
-from ..kernel import Violation, call, identical, is_exc, short, frames_equal
+from ..kernel import (Held, Violation, call, identical, is_exc, short,
+                      frames_equal)
 
 PROP = 'C15'
 MUTATORS = {'use_hier', 'set_n_ids', 'controller', 'sample', 'fix_elsewhere',
@@ -401,6 +402,7 @@ def check_outputs_argument(scenario, world):
 def run(scenario, world):
     import chi
     main = Stack(scenario)
+    held = Held()
     check_outputs_argument(scenario, world)
     triples = []
     prev = 'init'
@@ -503,6 +505,9 @@ def run(scenario, world):
                 res = call(draw, target, kind, args)
             runs = list(world.solver_runs)
             world.end_op()
+            # tables / arrays handed out earlier still hold what they held
+            held.verify(step)
+            held.keep('%s.sample (step %d)' % (kind, step), res)
             # the dose rows of the table describe the regimen the model
             # reports: it must be the one the simulation applied
             if kind in ('pred', 'pp', 'cpp', 'cpred') and not is_exc(res):
